@@ -3,10 +3,10 @@ import os
 # Repairs of the C14 defect sites that /repo contains, by number of the proposed patch
 # (known-findings.d/mdm-fix-<n>-*.patch): 1 programData bounds (+UnlockKey min length), 2 ReadSector,
 # 3 ReadOffset, 4 DropSectors, 5 rpcSectorRoots, 6 rpcRead, 7 rpcWrite update+proof, 8 rpcFormContract key
-# length, 9 registry recorder store, 10 FundAccount payment below FundAccountCost.  Add the number here when its `fix:` commit lands in /repo; the model
+# length, 9 registry recorder store, 10 FundAccount payment below FundAccountCost, 11 proof window end beyond int64 in the renewal/formation handlers.  Add the number here when its `fix:` commit lands in /repo; the model
 # driver then expects the repaired behaviour at that site (Hostd.Mdm.Fixes.enable).  VERIF_MDM_FIXED
 # (space separated) overrides the list, e.g. to check a scratch tree: VERIF_MDM_FIXED="1 2 3" VERIF_REPO=... bin/check C14
-FIXED_IN_REPO = [1, 2, 3, 4, 5, 6, 7, 8, 9, 10]
+FIXED_IN_REPO = [1, 2, 3, 4, 5, 6, 7, 8, 9, 10, 11]
 _fixed = os.environ.get("VERIF_MDM_FIXED")
 _driver_args = _fixed.split() if _fixed is not None else [str(n) for n in FIXED_IN_REPO]
 
